@@ -113,7 +113,7 @@ func judgeCall(rr *roundRec, ph *phaseRec, c *callRec) (callJudgement, *finding)
 				c.ID, c.CancelPoint, ends, c.CancelDoneSeq, c.IgnoredCancelSeq, c.IgnoredWhere, c.RetSeq, where)}
 		}
 		return j, &finding{"cancelled-caller-keeps-waiting", fmt.Sprintf("caller %d (cancel point %s): its context ended (%s at seq %d); at seq %d it was still blocked in %s waiting for the download and returned (%q) only at seq %d, when the download had ended: the end of a caller's own context must end its verification: %s",
-			c.ID, c.CancelPoint, ends, c.CancelDoneSeq, c.IgnoredCancelSeq, c.IgnoredWhere, c.Err, c.RetSeq, where)}
+			c.ID, c.CancelPoint, ends, c.CancelDoneSeq, c.IgnoredCancelSeq, c.IgnoredWhere, short(c.Err), c.RetSeq, where)}
 	}
 
 	if c.OK {
@@ -180,6 +180,13 @@ func judgeCall(rr *roundRec, ph *phaseRec, c *callRec) (callJudgement, *finding)
 		return j, &finding{"valid-token-rejected", fmt.Sprintf("a token signed by a served key was rejected (%q) although its context was live and every overlapping download was well-formed: %s", c.Err, where)}
 	}
 	return j, nil
+}
+
+func short(s string) string {
+	if len(s) > 120 {
+		return s[:120] + "..."
+	}
+	return s
 }
 
 func errClass(s string) string {
@@ -270,6 +277,12 @@ func judgePhase(run *stats, rr *roundRec, pi int, ph *phaseRec) []finding {
 			continue
 		}
 		run.Eval()
+		if c.NeverReturned && c.IgnoredCancelSeq == 0 {
+			// blocked somewhere else in the library (a lock nobody releases, ...): the phase's deadlock witness speaks for it
+			run.Count("verdict", "violation")
+			run.Count("events", "call_never_returned")
+			continue
+		}
 		if c.NeverReturned {
 			run.Count("verdict", "violation")
 			run.Count("own_cancellation", "ignored:never-returned")
